@@ -26,6 +26,8 @@ import (
 //	cfg pfx=</a/b|-> auth=0|1 proof=0|1 pkce=0|1 upload=0|1 introspect=0|1 sticky=0|1
 //	    describe=0|1 landing=0|1 notfound=0|1 custom=<VERB:/pattern,...|-> failed=<failing setter calls|->
 //	fail <failing setter call>      (made on the live server between requests)
+//	cfg … rotate=1: SetAuthenticate(A) -> SetOAuthPkce -> SetAuthenticate(mock); req … cred=<none|header|cookie>
+//	sends a credential only A accepts; inner=chain:m1/m2/… installs ChainAuthenticate over those members
 //	req <VERB> <path> inner=<behaviour of the mock authenticator; ctx+<kind> = (non-nil context, that error)> proof=<absent|valid|bad>
 //	    ct=<arrow|other> body=<kind> sess=<absent|garbage|fresh>
 //
@@ -36,7 +38,7 @@ import (
 // provider (count), token resolver, operator route, session state Close.
 
 type c22World struct {
-	handler, initN, state, provider, resolver, custom, stateClose, authCalls int
+	handler, initN, state, provider, resolver, custom, stateClose, authCalls, oldAuthCalls int
 	inner                                                               string
 }
 
@@ -145,7 +147,28 @@ func c22KV(fields []string) map[string]string {
 	return m
 }
 
+// c22Effective: what the authenticator stack answers for this behaviour. For a chain this is the
+// documented ChainAuthenticate contract: first success wins; *AuthUnavailableError stops; a ValueError
+// RpcError moves on; anything else stops the chain; all declined -> the chain's own ValueError. A
+// context returned together with an error never survives a chain.
+func c22Effective(inner string) string {
+	if !strings.HasPrefix(inner, "chain:") {
+		return inner
+	}
+	for _, m := range strings.Split(inner[6:], "/") {
+		switch strings.TrimPrefix(m, "ctx+") {
+		case "value":
+			continue
+		case "failure", "wrapped", "perm", "unavail", "rpcother", "other":
+			return strings.TrimPrefix(m, "ctx+")
+		}
+		return m // accept:NAME, anon, nilnil
+	}
+	return "value"
+}
+
 func c22IsRejectInner(inner string) bool {
+	inner = c22Effective(inner)
 	switch strings.TrimPrefix(inner, "ctx+") {
 	case "failure", "wrapped", "value", "perm", "unavail", "rpcother", "other":
 		return true
@@ -210,17 +233,29 @@ func (t *c22Transport) RoundTrip(r *http.Request) (*http.Response, error) {
 	return rec.Result(), nil
 }
 
+// c22Mock is the authenticator installed with SetAuthenticate. For `chain:m1/m2/…` it is a real
+// vgirpc.ChainAuthenticate over one mock member per listed behaviour.
 func c22Mock(w *c22World) vgirpc.AuthenticateFunc {
+	return func(r *http.Request) (*vgirpc.AuthContext, error) {
+		if strings.HasPrefix(w.inner, "chain:") {
+			var members []vgirpc.AuthenticateFunc
+			for _, m := range strings.Split(w.inner[6:], "/") {
+				members = append(members, c22Single(w, m))
+			}
+			return vgirpc.ChainAuthenticate(members...)(r)
+		}
+		return c22Single(w, w.inner)(r)
+	}
+}
+
+func c22Single(w *c22World, behaviour string) vgirpc.AuthenticateFunc {
 	return func(*http.Request) (*vgirpc.AuthContext, error) {
 		w.authCalls++
-		in := w.inner
+		in := behaviour
 		if strings.HasPrefix(in, "ctx+") {
 			// a refusal that nevertheless hands back a usable context: (non-nil ctx, err). Only the
 			// error counts; a gate that looks at the context first lets the request through.
-			saved := w.inner
-			w.inner = in[4:]
-			_, err := c22Mock(w)(nil)
-			w.inner = saved
+			_, err := c22Single(w, in[4:])(nil)
 			w.authCalls--
 			return &vgirpc.AuthContext{Domain: "mock", Authenticated: true, Principal: "introspector"}, err
 		}
@@ -319,7 +354,21 @@ func c22Build(cfgLine string) (s *c22Server, err error) {
 			return nil, err
 		}
 	}
-	if on("auth") {
+	rotate := cfg["rotate"] == "1"
+	if rotate && !(on("pkce") && on("auth") && !on("proof")) {
+		return nil, fmt.Errorf("rotate needs auth and pkce without the proof gate")
+	}
+	if rotate {
+		// the authenticator in place while SetOAuthPkce runs; it is REPLACED afterwards (below)
+		h.SetAuthenticate(func(r *http.Request) (*vgirpc.AuthContext, error) {
+			w.oldAuthCalls++
+			if r.Header.Get("Authorization") == "Bearer cred-A" {
+				return &vgirpc.AuthContext{Domain: "old", Authenticated: true, Principal: "olduser"}, nil
+			}
+			return nil, &vgirpc.RpcError{Type: "ValueError", Message: "not a credential of the old authenticator"}
+		})
+	}
+	if on("auth") && !rotate {
 		var fn vgirpc.AuthenticateFunc = c22Mock(w)
 		if on("proof") {
 			gated, err := vgirpc.ProofAuthenticate(vgirpc.ProofConfig{
@@ -346,6 +395,10 @@ func c22Build(cfgLine string) (s *c22Server, err error) {
 		if err := h.SetOAuthPkce(vgirpc.OAuthPkceConfig{}); err != nil {
 			return nil, err
 		}
+	}
+	if rotate {
+		// key rotation / config reload: a new authenticator replaces the old one after PKCE was wired
+		h.SetAuthenticate(c22Mock(w))
 	}
 	if on("sticky") {
 		h.EnableSticky(0)
@@ -647,7 +700,9 @@ func c22Exec(c *Case) {
 }
 
 func c22Request(c *Case, s *c22Server, line, verb, path string, kv map[string]string) {
-	inner, proof, ct, bodyKind, sess := kv["inner"], kv["proof"], kv["ct"], kv["body"], kv["sess"]
+	rawInner, proof, ct, bodyKind, sess := kv["inner"], kv["proof"], kv["ct"], kv["body"], kv["sess"]
+	inner := c22Effective(rawInner)
+	cred := kv["cred"]
 	if !strings.HasPrefix(path, "/") {
 		c.Out(line, "err:bad-op")
 		return
@@ -661,7 +716,7 @@ func c22Request(c *Case, s *c22Server, line, verb, path string, kv map[string]st
 	if hasAuth && strings.HasPrefix(inner, "accept:") && !refusing {
 		identity = inner
 	}
-	if hasAuth && strings.HasPrefix(inner, "ctx+") {
+	if hasAuth && strings.HasPrefix(rawInner, "ctx+") {
 		identity = "accept:introspector" // the context such a refusal carries (tokens are minted for it)
 	}
 
@@ -769,11 +824,21 @@ func c22Request(c *Case, s *c22Server, line, verb, path string, kv map[string]st
 	}
 
 	// ---- measured call
+	switch cred {
+	case "", "none":
+	case "header": // a credential only the authenticator installed BEFORE the rotation accepts
+		req.Header.Set("Authorization", "Bearer cred-A")
+	case "cookie":
+		req.AddCookie(&http.Cookie{Name: "_vgi_auth", Value: "cred-A"})
+	default:
+		c.Out(line, "err:bad-op")
+		return
+	}
 	if hasAuth {
-		s.w.inner = inner
+		s.w.inner = rawInner
 	}
 	w := s.w
-	w.handler, w.initN, w.state, w.provider, w.resolver, w.custom, w.stateClose, w.authCalls = 0, 0, 0, 0, 0, 0, 0, 0
+	w.handler, w.initN, w.state, w.provider, w.resolver, w.custom, w.stateClose, w.authCalls, w.oldAuthCalls = 0, 0, 0, 0, 0, 0, 0, 0, 0
 	rec := httptest.NewRecorder()
 	s.h.ServeHTTP(rec, req)
 	respBody := rec.Body.String()
@@ -863,6 +928,9 @@ func c22Request(c *Case, s *c22Server, line, verb, path string, kv map[string]st
 	if w.resolver > 0 {
 		c.Oracle("introspect-resolver-ran-unauthenticated", "the token resolver ran although the authenticator refused: "+where)
 	}
+	if w.oldAuthCalls > 0 {
+		c.Oracle("replaced-authenticator-still-consulted", "the authenticator that SetAuthenticate replaced after SetOAuthPkce was consulted: "+where)
+	}
 	isSessionDelete := verb == "DELETE" && under && len(rel) == 1 && rel[0] == "__session__"
 	if w.stateClose > 0 && !isSessionDelete {
 		c.Oracle("session-state-touched-unauthenticated", "a session state was closed outside the session-delete route although the authenticator refused: "+where)
@@ -922,6 +990,7 @@ type c22Cfg struct {
 	auth, proof, pkce, upload, introspect, sticky, describe, landing, notfnd bool
 	customs                                                                  []string
 	failed                                                                   []string // failing setter calls made after the configuration
+	rotate                                                                   bool     // SetAuthenticate(A) -> SetOAuthPkce -> SetAuthenticate(B)
 }
 
 func (k c22Cfg) line() string {
@@ -933,9 +1002,9 @@ func (k c22Cfg) line() string {
 	if len(k.failed) > 0 {
 		fl = strings.Join(k.failed, ",")
 	}
-	return fmt.Sprintf("cfg pfx=%s auth=%s proof=%s pkce=%s upload=%s introspect=%s sticky=%s describe=%s landing=%s notfound=%s custom=%s failed=%s",
+	return fmt.Sprintf("cfg pfx=%s auth=%s proof=%s pkce=%s upload=%s introspect=%s sticky=%s describe=%s landing=%s notfound=%s custom=%s failed=%s rotate=%s",
 		k.pfx, b01(k.auth), b01(k.proof), b01(k.pkce), b01(k.upload), b01(k.introspect), b01(k.sticky), b01(k.describe),
-		b01(k.landing), b01(k.notfnd), cu, fl)
+		b01(k.landing), b01(k.notfnd), cu, fl, b01(k.rotate))
 }
 
 func (k c22Cfg) p() string {
@@ -947,6 +1016,35 @@ func (k c22Cfg) p() string {
 
 func c22Req(verb, path, inner, proof, ct, body, sess string) string {
 	return fmt.Sprintf("req %s %s inner=%s proof=%s ct=%s body=%s sess=%s", verb, path, inner, proof, ct, body, sess)
+}
+
+var c22Members = []string{"value", "value", "value", "ctx+value", "perm", "failure", "wrapped", "unavail", "rpcother", "other",
+	"ctx+other", "ctx+perm", "accept:alice", "accept:introspector", "anon"}
+
+// c22Chain: a ChainAuthenticate of 2..4 members, each with any outcome kind. With refuse=true the chain
+// as a whole must refuse (by the documented contract); the interesting ones have an accepting member
+// BEHIND a member's hard failure.
+func c22Chain(r *Rng, refuse bool) string {
+	for {
+		n := r.Range(2, 4)
+		ms := make([]string, n)
+		for i := range ms {
+			ms[i] = Pick(r, c22Members)
+		}
+		if refuse && r.Chance(60) {
+			// decline(s), then a hard failure, then an accepting member
+			k := r.Intn(n - 1)
+			for i := 0; i < k; i++ {
+				ms[i] = Pick(r, []string{"value", "ctx+value"})
+			}
+			ms[k] = Pick(r, []string{"other", "rpcother", "failure", "wrapped", "perm", "unavail", "ctx+other", "ctx+failure"})
+			ms[n-1] = Pick(r, []string{"accept:alice", "accept:introspector", "anon"})
+		}
+		spec := "chain:" + strings.Join(ms, "/")
+		if !refuse || c22IsRejectInner(spec) {
+			return spec
+		}
+	}
 }
 
 // targets: every registered route of the configuration (right verb), by path
@@ -993,6 +1091,7 @@ func c22RandCfg(r *Rng) c22Cfg {
 	k.describe = r.Chance(75)
 	k.landing = r.Chance(75)
 	k.notfnd = r.Chance(70)
+	k.rotate = k.pkce && !k.proof && r.Chance(45)
 	if r.Chance(30) {
 		k.failed = append(k.failed, Pick(r, c22FailingCalls))
 		if r.Chance(30) {
@@ -1041,7 +1140,13 @@ func c22RandReq(r *Rng, k c22Cfg) string {
 	if r.Chance(28) {
 		inner = Pick(r, c22AllInners)
 	}
-	if k.proof && inner == "nilnil" {
+	if r.Chance(22) {
+		inner = c22Chain(r, r.Chance(75))
+	}
+	if k.rotate && r.Chance(50) {
+		inner = Pick(r, []string{"value", "value", "ctx+value", "chain:value/value", "perm"})
+	}
+	if k.proof && c22Effective(inner) == "nilnil" {
 		// ProofAuthenticate dereferences the inner authenticator's context: (nil, nil) behind the
 		// gate panics inside the authenticator (no work is done, but it is not this property's subject)
 		inner = "value"
@@ -1069,7 +1174,12 @@ func c22RandReq(r *Rng, k c22Cfg) string {
 	} else if r.Chance(6) {
 		sess = Pick(r, []string{"fresh", "garbage"})
 	}
-	return c22Req(verb, path, inner, proof, ct, body, sess)
+	line := c22Req(verb, path, inner, proof, ct, body, sess)
+	if k.rotate || r.Chance(5) {
+		// credentials that only the authenticator in place BEFORE a rotation accepts (header and cookie form)
+		line += " cred=" + Pick(r, []string{"cookie", "cookie", "header", "none"})
+	}
+	return line
 }
 
 // c22WithInner rewrites the inner= (and, for an admitted request behind the proof gate, proof=) field
@@ -1141,9 +1251,17 @@ func c22Gen(g *Gen) {
 				pv0 = "valid"
 			}
 			lines = append(lines, c22Req(t[0], t[1], Pick(r, []string{"anon", "accept:alice", "accept:introspector"}), pv0, "arrow", "valid", sess))
+			inners = append(append([]string{}, inners...), c22Chain(r, true))
+			if g.Thorough() {
+				inners = append(inners, c22Chain(r, true), c22Chain(r, true))
+			}
 			for _, in := range inners {
-				if k.proof && in == "nilnil" {
+				if k.proof && c22Effective(in) == "nilnil" {
 					continue
+				}
+				if k.rotate {
+					lines = append(lines, c22Req(t[0], t[1], Pick(r, []string{"value", "ctx+value", "chain:value/value"}), "absent", "arrow", "valid", sess)+
+						" cred="+Pick(r, []string{"cookie", "header"}))
 				}
 				proof := "absent"
 				if k.proof && r.Chance(70) {
@@ -1166,7 +1284,11 @@ func c22Gen(g *Gen) {
 		for i := 0; i < 12; i++ {
 			k := c22RandCfg(r)
 			k.auth = true
+			if i%3 == 1 {
+				k.pkce, k.proof, k.rotate = true, false, true
+			}
 			if i%3 == 0 {
+				k.rotate = false
 				k.pkce = false // so that the failing SetOAuthPkce calls are failing calls on this server
 				k.failed = []string{c22FailingCalls[(i/3)%len(c22FailingCalls)], "pkce-nometa"}
 			}
@@ -1184,6 +1306,7 @@ func c22Gen(g *Gen) {
 			if mask%5 == 0 {
 				k.describe, k.landing = false, false
 			}
+			k.rotate = k.pkce && !k.proof && mask%8 >= 4
 			if mask%4 == 1 {
 				k.failed = []string{c22FailingCalls[(mask/4)%len(c22FailingCalls)], "pkce-nometa", "pkce-noclient"}
 			}
